@@ -311,6 +311,15 @@ def rule_r2_receivers(ctx, rid="C02.R2b"):
                 if isinstance(cut, ast.Constant) and cut.value == 2:
                     cut_ok = any(pol and isinstance(t, ast.Call) and isinstance(t.func, ast.Attribute) and t.func.attr == "startswith" and dotted(t.func.value) == j
                                  and t.args and isinstance(t.args[0], ast.Constant) and t.args[0].value == b"\r\n" for (t, pol) in guards_of(g, r))
+                    # "no trailer" is decided by the first two bytes alone: the exit must not also depend on a search of
+                    # the rest (the bytes after the final CRLF belong to the next message)
+                    searched = {n2.ast.targets[0].id for n2 in g.nodes if n2.kind == "stmt" and isinstance(n2.ast, ast.Assign) and isinstance(n2.ast.targets[0], ast.Name)
+                                and isinstance(n2.ast.value, ast.Call) and ((dotted(n2.ast.value.func) or "").endswith("find_double_newline") or (isinstance(n2.ast.value.func, ast.Attribute) and n2.ast.value.func.attr in ("find", "index")))
+                                and n2.ast.value.args and dotted(n2.ast.value.args[0] if (dotted(n2.ast.value.func) or "").endswith("find_double_newline") else n2.ast.value.func.value) == j}
+                    extra = [(norm(t), pol) for (t, pol) in guards_of(g, r) if any(isinstance(y, ast.Name) and y.id in searched for y in ast.walk(t))]
+                    if cut_ok and extra:
+                        ctx.r.violation(rid, key_of(f, None, "no-trailer-exit-conditional"),
+                                        "the 'no trailer' exit (the joined bytes start with CRLF) is additionally conditioned on %s: when the next pipelined request arrives in the same read, its head is taken for a trailer section" % extra, f.loc(r.ast))
                 elif isinstance(cut, ast.Name):
                     cd = ex.reaching_defs(cut.id, r)
                     cut_ok = len(cd) == 1 and isinstance(cd[0].ast, ast.Assign) and isinstance(cd[0].ast.value, ast.Call) and (dotted(cd[0].ast.value.func) or "").endswith("find_double_newline") \
